@@ -541,7 +541,14 @@ pub fn gen_graceful_burst(rng: &mut Rng, faults: bool, slow_death: bool) -> E1Sc
     let mut sigs = e1::SigAlloc::new();
     let mut steps = vec![Step { gap: 0, op: Op::Start, waiters: 1, inline: rng.chance(1, 2), cancel_after: None, late_clone: None }];
     // (u64::MAX = Duration::MAX, "wait for ever")
-    let grace = if rng.chance(1, 25) { u64::MAX } else { *rng.pick(&e1::DURS[..7]) };
+    // (added after A18-C05r: graces just above 2^32 ms - 49.7 days - whose low 32 bits are a short time)
+    let grace = if rng.chance(1, 25) {
+        u64::MAX
+    } else if rng.chance(1, 25) {
+        (1u64 << 32) + *rng.pick(&[5u64, 104, 1000])
+    } else {
+        *rng.pick(&e1::DURS[..7])
+    };
     // (77: no OS equivalent, sent as SIGTERM; 9: ForceStop as the "graceful" signal - the process dies at once, the
     // control still holds the normal queue back until that is observed, a restart still follows)
     let sig = match rng.below(20) {
